@@ -37,6 +37,10 @@ func buildCase(id string, rec *R, refs []*R, nodeRefs []int) *Case {
 		refRecs = append(refRecs, r)
 	}
 	c.Cmd = L(Sym("case"), rec.ToSX(), L(refSX...))
+	if engineStreams {
+		c.Cmd = L(Sym("case"), rec.ToSX(), L(refSX...), L(append([]SX{Sym("trim")}, strSXs(trimPathsList())...)...),
+			L(append([]SX{Sym("verbs")}, strSXs(verbSpecs)...)...))
+	}
 	c.Real = obsCase(e, refErrs)
 	c.Err, c.Refs, c.RefRecs = e, refErrs, refRecs
 	return c
@@ -73,11 +77,21 @@ func engineCases(g *Gen, n int, taint, hostile bool) []*Case {
 		if taint {
 			toks = g.Taint(rec, nil)
 		}
+		engineStreams, hopStreams = true, regularRecipe(rec)
 		c := buildCase(fmt.Sprintf("e%d", i), rec, nil, nil)
+		engineStreams, hopStreams = false, false
 		c.Toks = toks
 		cases = append(cases, c)
 	}
 	return cases
+}
+
+func strSXs(ss []string) []SX {
+	out := make([]SX, len(ss))
+	for i, s := range ss {
+		out[i] = Str(s)
+	}
+	return out
 }
 
 func hasNonStringTags(r *R) bool {
